@@ -83,6 +83,33 @@ def integer_leaves():
     return L
 
 
+def list_leaves():
+    """a named (and a parameterised) list type used through a reference that adds SIZE: the generated checker has to
+    walk the elements after its own SIZE test"""
+    def mk(size, elem, kind=16):
+        out = []
+        for vs in ([], [3], [3, 4], [0, 7], [3, 99], [99, 3], [-1, 3], [3, 4, 5], [3, 99, 5], [3, 4, 99], [8, 4, 5], [3, 4, 5, 6]):
+            bad = []
+            if size and not in_parts(size, len(vs)):
+                bad.append("size")
+            if any(not in_parts(elem, v) for v in vs):
+                bad.append("element")
+            items = [prim("INTEGER", int_content(v)) for v in vs]
+            out.append(("list:%s" % ",".join(map(str, vs)), tlv(kind * 4, True, b"".join(sorted(items) if kind == 17 else items)), bad, None))
+        return out
+    pre = ["WLq ::= SEQUENCE OF INTEGER (0..7)", "WLt ::= SET OF INTEGER (0..7)", "WLp {INTEGER:hi} ::= SEQUENCE OF INTEGER (0..hi)",
+           "WLs {INTEGER:n} ::= WLq (SIZE(n))"]
+    # inline=False: kept out of the wrappers (a constrained reference as the element of an anonymous SET OF is C10's subject)
+    L = [Leaf("WL1", "WLq (SIZE(2))", mk([(2, 2)], [(0, 7)]), pre=pre, inline=False)]
+    L.append(Leaf("WL2", "WLt (SIZE(1..3))", mk([(1, 3)], [(0, 7)], 17), inline=False))
+    L.append(Leaf("WL3", "WLq", mk([], [(0, 7)]), inline=False))
+    L.append(Leaf("WL4", "WLp {7} (SIZE(1..2))", mk([(1, 2)], [(0, 7)]), inline=False))
+    L.append(Leaf("WL5", "WLp {98}", mk([], [(0, 98)]), inline=False))
+    L.append(Leaf("WL6", "WLs {3}", mk([(3, 3)], [(0, 7)]), inline=False))
+    L.append(Leaf("WL7", "WL2 (SIZE(2))", mk([(2, 2)], [(0, 7)], 17), inline=False))
+    return L
+
+
 # ---------------------------------------------------------------- BOOLEAN / ENUMERATED / REAL / NULL / time / OID
 def bool_leaves():
     T, F = ("bool:TRUE", prim("BOOLEAN", b"\xff")), ("bool:FALSE", prim("BOOLEAN", b"\x00"))
@@ -357,7 +384,7 @@ def wrappers(leaves, rng, group=6):
 
 
 def wide_module(rng, name="MW0"):
-    leaves = integer_leaves() + bool_leaves() + enum_leaves() + real_leaves() + misc_leaves() + bits_leaves() + string_leaves(rng)
+    leaves = integer_leaves() + list_leaves() + bool_leaves() + enum_leaves() + real_leaves() + misc_leaves() + bits_leaves() + string_leaves(rng)
     lines = ["%s DEFINITIONS AUTOMATIC TAGS ::= BEGIN" % name]
     cases, defs, texts = [], [], {}
     for l in leaves:
